@@ -6,6 +6,7 @@ import PwVerif.Proofs.CacheFetchTree
 import PwVerif.Proofs.CacheCmp
 import PwVerif.Proofs.CacheSer
 import PwVerif.Proofs.CacheFor
+import PwVerif.Proofs.CacheGate
 /-!
 # C05 — Caching is transparent: a run served from cache equals a real run
 
@@ -456,6 +457,21 @@ theorem C05_hand_run_witness :
     evalP natSem 4 [] [(1, .leaf 10 [.val 7])] 1 = some 10008 := by
   decide
 
+/-- … at ANY depth, when every record on the way down is dropped (/repo, 7aeb496) -/
+theorem C05_forest_hand_run_deep_ok {ρ : Type} (S : Sem ρ) (path : List Nat) (l : Nat) :
+    OpOk S (PwVerif.CacheForest.Op.handRunAt path l true) := rfl
+
+/-- dropping only the record of the composite that owns the child (seeded change C05-13): workflow ⊃ macro 1 ⊃ node 3;
+run; node 3's input := 8, node 3 run by hand, input back to 7; run — the workflow answers from its record with the macro's
+output for 8 -/
+theorem C05_hand_run_shallow_witness :
+    let r0 : Root Nat := { kids := [(1, .comp 3 [] [(3, freshLeaf natSem 10 [.val 7])] 0 none)], cache := none }
+    let ops := fun (deep : Bool) => ([.run, .edit (atPathC false (mapKidC 3 (TC.setIn 0 (.val 8))) [1]), .handRunAt [1] 3 deep,
+      .edit (atPathC false (mapKidC 3 (TC.setIn 0 (.val 7))) [1]), .run] : List (PwVerif.CacheForest.Op Nat))
+    (runOpsC natSem KCfg.now 5 r0 (ops false)).map (fun p => p.2.map Root.outs) = some [[(1, 10008)], [(1, 10009)]] ∧
+    (runOpsC natSem KCfg.now 5 r0 (ops true)).map (fun p => p.2.map Root.outs) = some [[(1, 10008)], [(1, 10008)]] := by
+  decide
+
 end Forest
 
 /-! ## a composite hit and the values held by connected inputs (`PwVerif.CacheFetch`, finding KF-C05-7) -/
@@ -636,6 +652,36 @@ theorem C05_for_no_rebuild_witness :
   refine ⟨by decide, by decide⟩
 
 end ForLoop
+
+/-! ## the readiness gate on a hit, and the `use_cache` switch flipped between runs (`PwVerif.CacheGate`) -/
+section Gate
+open PwVerif.CacheGate
+
+/-- /repo: for every history of assignments (NOT_DATA and hint-violating values included), runs, `execute`s, hints switched
+lax / strict and `use_cache` switched off / on, the node and its cache-free twin return the same (results, ReadinessErrors)
+and hold the same outputs -/
+theorem C05_gate_transparent (ops : List PwVerif.CacheGate.Op) :
+    (PwVerif.CacheGate.runOps true true false (N.init true) ops).2 = (PwVerif.CacheGate.runOps true true true (N.init false) ops).2 ∧
+    (PwVerif.CacheGate.runOps true true false (N.init true) ops).1.out = (PwVerif.CacheGate.runOps true true true (N.init false) ops).1.out := by
+  obtain ⟨h1, h2⟩ := PwVerif.CacheGate.runOps_sim ops (N.init true) (N.init false) ⟨rfl, rfl, rfl, rfl, by simp [PwVerif.CacheGate.N.init]⟩
+  exact ⟨h1, h2.out⟩
+
+/-- a hit that skips the input-readiness gate (seeded change C05-14): `execute` with NOT_DATA, then `run`; a value stored
+while hints were lax, hints strict again, `run` — returned instead of refused -/
+theorem C05_gate_skipped_witness :
+    (PwVerif.CacheGate.runOps false true false (N.init true) [.execute, .run]).2 ≠
+      (PwVerif.CacheGate.runOps false true true (N.init false) [.execute, .run]).2 ∧
+    (PwVerif.CacheGate.runOps false true false (N.init true) [.laxOn, .set 100, .run, .laxOff, .run]).2 ≠
+      (PwVerif.CacheGate.runOps false true true (N.init false) [.laxOn, .set 100, .run, .laxOff, .run]).2 := by
+  refine ⟨by decide, by decide⟩
+
+/-- a record that is only dropped while `use_cache` is on (seeded change C05-15): run 1; switch off; run 2; switch on; run 1 -/
+theorem C05_toggle_stale_witness :
+    (PwVerif.CacheGate.runOps true false false (N.init true) [.set 1, .run, .cacheOff, .set 2, .run, .cacheOn, .set 1, .run]).2 ≠
+    (PwVerif.CacheGate.runOps true false true (N.init false) [.set 1, .run, .cacheOff, .set 2, .run, .cacheOn, .set 1, .run]).2 := by
+  decide
+
+end Gate
 end PwVerif.C05
 
 #print axioms PwVerif.C05.C05_transparent
@@ -687,3 +733,8 @@ end PwVerif.C05
 #print axioms PwVerif.C05.C05_ser_stale_record_witness
 #print axioms PwVerif.C05.C05_for_transparent
 #print axioms PwVerif.C05.C05_for_no_rebuild_witness
+#print axioms PwVerif.C05.C05_forest_hand_run_deep_ok
+#print axioms PwVerif.C05.C05_hand_run_shallow_witness
+#print axioms PwVerif.C05.C05_gate_transparent
+#print axioms PwVerif.C05.C05_gate_skipped_witness
+#print axioms PwVerif.C05.C05_toggle_stale_witness
